@@ -34,7 +34,7 @@ type c07Case struct {
 func init() {
 	engine.Register(&engine.Check{
 		ID: "C07", Level: "exploration",
-		Rule:        "round trip: universe U in XY, XYZ, XYM, XYZM, Layout(5), Layout(7) + collections (mixed layouts, empty members, nesting <=3) + a float lattice in points: Marshal output read by an independent RFC 7946 reader (same type, nesting, numbers) and by Unmarshal / Encode+Decode (equal to the model with the format carve-outs COMPUTED from the model: layout from the first position, empty => XY, arity mismatch => error); Features: id {absent,'a','0','1e3'} x bbox {absent,XY,XYZ} x properties {nil,{},nested} x geometry {nil, each kind}; FeatureCollections of 0..2 features x bbox. Totality: grammar-directed enumeration of documents (type x coordinates menu x geometries menu; Feature id x bbox x geometry x properties menus; FeatureCollection menus) plus every prefix and every single-byte deletion of valid documents, decoded as geometry, Feature and FeatureCollection: no panic; error or well-formed result. distinct_nontrivial = distinct documents / geometries with at least one position or one member",
+		Rule:        "round trip: universe U in XY, XYZ, XYM, XYZM, Layout(5), Layout(7) + collections (mixed layouts, empty members, nesting <=3) + a float lattice in points: Marshal output read by an independent RFC 7946 reader (same type, nesting, numbers) and by Unmarshal / Encode+Decode (equal to the model with the format carve-outs COMPUTED from the model: layout from the first position, empty => XY, arity mismatch => error); Features: id {absent,'a','0','1e3'} x bbox {absent,XY,XYZ} x properties {nil,{},nested} x geometry {nil, each kind}; FeatureCollections of 0..2 features x bbox. Totality: grammar-directed enumeration of documents (type x coordinates menu x geometries menu; Feature id x bbox x geometry x properties menus; FeatureCollection menus) plus every prefix and every single-byte deletion of valid documents, decoded as geometry, Feature and FeatureCollection: no panic; error or well-formed result. distinct_nontrivial = distinct documents / geometries with at least one position or one member Also: a lattice of ~1100 numeric Feature ids (+-2^k and neighbours to 2^70, powers of ten to 1e22, integral values between 2^63 and 1e19) and two-step histories in which the document returned by Feature.MarshalJSON is kept while a shorter, an equally long and a longer document are marshalled.",
 		Run:         c07Run,
 		Replay:      func(c *engine.Ctx, kind string, raw json.RawMessage) { c07Exec(c, decodeCase[c07Case](raw)) },
 		Assumptions: []string{"finite ordinates; geojson.DefaultLayout at its default XY; encoding/json and ref.ParseGeoJSON trusted"},
